@@ -16,4 +16,4 @@ require (
 	golang.org/x/sys v0.38.0 // indirect
 )
 
-replace github.com/itchyny/gojq => /tmp/seedtest-ykomwger/repo
+replace github.com/itchyny/gojq => /tmp/seedtest-mppcdlpk/repo
